@@ -207,7 +207,14 @@ def _run_task(args):
                 seen_all |= bs
                 if r["status"] == "reachable":
                     seen_ok |= bs
-            out["reach"] = {"path_ends": len(reach), "vacuous": sum(r["status"] == "vacuous" for r in reach),
+            ext = [r for r in reach if "assumed contract" in r["name"]]
+            reach = [r for r in reach if "assumed contract" not in r["name"]]
+            forced_empty = {}
+            for r in ext:        # an assumed contract is suspicious if NO call site on a reachable path admits a non-empty result
+                key = r["name"].split("assumed contract ")[1]
+                forced_empty.setdefault(key, []).append(r["status"] == "vacuous")
+            out["reach_forced_empty"] = sorted(k for k, v in forced_empty.items() if all(v))
+            out["reach"] = {"path_ends": len(reach), "vacuous": sum(r["status"] == "vacuous" for r in reach), "assumed_contracts_forcing_an_empty_result": out["reach_forced_empty"],
                             "dead_branches": sorted([list(b) for b in seen_all - seen_ok], key=str)}
     except (Unsupported, SortMismatch) as e:
         out["unsupported"] = str(e)
